@@ -512,10 +512,45 @@ def run(ctx: common.Ctx):
       g4, 2.0, np.array([1.25]), 0.5)(np.ones(4)))
   ctx.notes.append(dict(excluded_points_on_real_code=excluded))
 
+  # DOMAIN STATEMENTS (review C, C15 finding 1): the two excluded points at which the real code does NOT have the
+  # property "factor 1 for the global mean".  Neither is an admissible parameter: `cutoff` is documented as "a
+  # proportion of maximum total wavenumber" (so 0 <= cutoff < 1), and a "horizontal diffusion step" of order p applies
+  # exp(-scale * (-lap)^p) with p >= 1 (p = 0 is a uniform damping exp(-scale), since 0 ** 0 = 1, not a diffusion);
+  # the code validates neither.  The measured factor of the mean (l = 0) is recorded on every run; the theorems
+  # expFactor_mean (0 <= c) and diffFactor_mean (1 <= order) carry the corresponding hypotheses.
+  def mean_factor(fn):
+    with np.errstate(all='ignore'):
+      try:
+        return float(flat(fn())[0])
+      except Exception as e:  # pylint: disable=broad-except
+        return f'{type(e).__name__}: {e}'
+  dom = [
+      dict(point='horizontal_diffusion_filter(order=0, scale=0.5)', hypothesis='1 <= order (diffFactor_mean)',
+           admissible=False, reason='order 0 is a uniform damping exp(-scale) (0**0 = 1), not a diffusion; not validated '
+           'by the code', measured_mean_factor=mean_factor(
+               lambda: filtering.horizontal_diffusion_filter(g4, 0.5, 0)(np.ones(4))), property_holds=False),
+      dict(point='exponential_filter(cutoff=-0.5, attenuation=2, order=1)', hypothesis='0 <= cutoff (expFactor_mean)',
+           admissible=False, reason='cutoff is documented as a proportion of the maximum total wavenumber; with '
+           'cutoff < 0 the mask (k > cutoff) is true at k = 0; not validated by the code',
+           measured_mean_factor=mean_factor(
+               lambda: filtering.exponential_filter(g4, 2.0, 1, -0.5)(np.ones(4))), property_holds=False),
+  ]
+  for d_ in dom:   # the statement is only a domain statement as long as the measurement says what is recorded
+    mf = d_['measured_mean_factor']
+    d_['as_recorded'] = bool(isinstance(mf, float) and 0 < mf < 1 - 1e-6)
+    ctx.dist['domain-statement-' + ('as-recorded' if d_['as_recorded'] else 'CHANGED')] += 1
+  ctx.notes.append(dict(domain_statements=dom, hypotheses_of_the_claim=(
+      'attenuation >= 0, scale >= 0, dt/tau >= 0 (tau != 0); 0 <= cutoff < 1; diffusion order >= 1; orders are natural '
+      'numbers; radius != 0; lmax > 0; Robert-Asselin 0 <= r <= 1/2 for convexity (newest level / linear sequences: any r); '
+      'factor in (0,1] over the reals (float64: exp underflows to 0 for attenuation >~ 745); untouched leaves are those '
+      'whose shape does not broadcast-preserve against the scaling (a 1-d leaf of length L IS rescaled)')))
+
   if not ctx.quick:
     ctx.leanchecker(['DinoProofs.Properties.C15'])
   return ctx.finish(RULE, 'theorems are about the Lean model Dino.Filters over the reals (Real.exp); exp is external to '
                     'the executable model (Float.exp in the correspondence); float rounding, exp underflow for '
                     'attenuation > ~700 and dtype promotion are outside the theorems (tolerance 1e-9 in the '
                     'correspondence); degenerate grids with a single total wavenumber (l.max() = 0 -> NaN), '
-                    'cutoff = 1 and non-integer 2*order with cutoff > 0 are outside the stated domain')
+                    'cutoff = 1 and non-integer 2*order with cutoff > 0 are outside the stated domain; DOMAIN: order = 0 '
+                    'diffusion and cutoff < 0 are not admissible parameters (there the real code does not preserve the '
+                    'mean: measured in notes.domain_statements)')
